@@ -23,9 +23,11 @@ import (
 	"context"
 	"time"
 
+	"entgo.io/ent/dialect/sql"
 	"github.com/google/uuid"
 
 	"go.6river.tech/mmmbbb/ent"
+	"go.6river.tech/mmmbbb/ent/subscription"
 	"go.6river.tech/mmmbbb/ent/topic"
 	"go.6river.tech/mmmbbb/logging"
 )
@@ -56,6 +58,19 @@ func (a *PruneDeletedTopics) Execute(ctx context.Context, tx *ent.Tx) error {
 			// we rely on subscriptions being pruned to then allow topics to be pruned
 			// UPSTREAM: ticket for HasRelationWith efficiency
 			topic.Not(topic.HasSubscriptions()),
+			// a live subscription may still name this topic in its dead letter
+			// policy. removing the row would silently clear that policy (the FK is
+			// ON DELETE SET NULL) and change how the subscription treats messages
+			// that exhaust their delivery attempts
+			func(s *sql.Selector) {
+				st := sql.Table(subscription.Table)
+				s.Where(sql.NotExists(
+					sql.Select(st.C(subscription.FieldID)).From(st).Where(sql.And(
+						sql.ColumnsEQ(st.C(subscription.DeadLetterTopicColumn), s.C(topic.FieldID)),
+						sql.IsNull(st.C(subscription.FieldDeletedAt)),
+					)),
+				))
+			},
 		).
 		Limit(a.params.MaxDelete).
 		All(ctx)
